@@ -75,13 +75,20 @@ def t_reinforce(E):
     prim = E.call(P + ":reinforce", sampler, logpdf)
     a, da = E.real("theta"), E.real("dtheta")
     out = E.method(prim, "jvp_estimate", k, (dual(E, a, da),), (K.kpure, K.kdual))
-    split = E.ctx.fn("split", U, z3.IntSort(), z3.IntSort(), U)
-    k0, k1 = split(k.t, 2, 0), split(k.t, 2, 1)
+    from theory import keys as KY
+    op, ot = parts(E, out)
+    # the continuation's key and the sampling key are read off the result (whichever halves of whichever split they are)
+    op_t = z3.simplify(op.t)
+    E.require("C29.REINFORCE.jvp_estimate.returns_the_continuation_s_value_at_a_drawn_sample",
+              z3.is_app(op_t) and op_t.decl().name() == "kont_value" and z3.is_app(z3.simplify(op_t.arg(1)))
+              and z3.simplify(op_t.arg(1)).decl().name() == "sampler")
+    k0, k1 = op_t.arg(0), z3.simplify(op_t.arg(1)).arg(0)
+    E.prove("C29.REINFORCE.jvp_estimate.continuation_key_is_independent_of_the_sampling_key", z3.And(
+        KY.independent(E.I, k0, k1), KY.derived_from(E.I, k0, k.t), KY.derived_from(E.I, k1, k.t)))
     v = UVal(samp_f(k1, E.I.to_u((a,))), "array")
     zl = UVal(E.ctx.fn("zeros_like", U, U)(v.t), "array")
     kv, dkv = K.val(k0, v), K.tan(k0, v, zl)
     dlogp = E.ctx.fn("jvp_tangent", U, U, U, z3.RealSort())(logpdf.t, E.I.to_u((v, a)), E.I.to_u((zl, da)))
-    op, ot = parts(E, out)
     E.prove("C29.REINFORCE.primal_is_the_program_value_at_the_sample", E.eq(op, SReal(kv)))
     E.prove("C29.REINFORCE.tangent_has_score_function_form", E.eq(ot, SReal(dkv + kv * dlogp)))
     E.prove("C29.REINFORCE.sample_uses_a_split_key", E.eq(E.method(prim, "sample", UVal(k1, "key"), a), v))
